@@ -259,8 +259,6 @@ def check(prop, tier):
                 div += 1
                 print("NONDETERMINISM seed=%d: %s vs %s" % (r["seed"], r["trace_hash"], by_seed[r["seed"]]["trace_hash"]))
     shutil.rmtree(drundir, ignore_errors=True)
-    if div:
-        die(2, "HARNESS-ERROR property=%s: determinism re-check diverged on %d/%d seeds" % (prop, div, rechecked))
 
     known = load_known()
     viol_runs = []
@@ -313,6 +311,13 @@ def check(prop, tier):
                 if exit_code == 0:
                     exit_code = 2
 
+    if div:
+        # a violation that reproduced exactly from its replay file stands on its own;
+        # without one, a diverging re-check means the results cannot be trusted
+        lines.append("NONDETERMINISM property=%s: determinism re-check diverged on %d/%d seeds" % (prop, div, rechecked))
+        if exit_code == 0:
+            exit_code = 2
+            lines.append("HARNESS-ERROR property=%s: determinism re-check diverged (not a property verdict)" % prop)
     write_evidence(prop, tier, seed, runs, time.time() - t0, budget, workers, len(new_viol), list(known_seen.keys()), aux, rechecked, div)
     shutil.rmtree(rundir, ignore_errors=True)
     for l in lines:
